@@ -157,6 +157,23 @@ func Generate(r *vk.RNG, p Profile) *App {
 			}
 			a.Trans[lc] = m
 		}
+		// half of the applications also carry entries for the library's default language code: an application whose
+		// plain entries are in another language stores its English texts as translations like any other (a stream of
+		// its own, so that the rest of the generation is unchanged)
+		if re := vk.CaseRNG(0xe96, strings.Join(a.Order, ",")+fmt.Sprint(len(g.labels), len(g.syms))); re.Bool() {
+			m := map[string]string{}
+			for _, n := range a.Order {
+				if re.Bool() {
+					m["t:"+n] = "[eng]" + a.Nodes[n].Template
+				}
+			}
+			for _, l := range g.labels {
+				if re.Bool() {
+					m["m:"+l] = "eng-" + l
+				}
+			}
+			a.Trans["eng"] = m
+		}
 	}
 	if p.Sinks {
 		// labels (and translations) of the browse entries: their own random stream, derived from the application, so
